@@ -45,6 +45,18 @@ CHECKS['C18'] = {
     'technique': 'typestate / field-invariant analysis over MIR (writers, dominating guards, structural comparison of initialisers) + call-graph allow-list',
 }
 
+CHECKS['C19'] = {
+    'category': 'other',
+    'text': 'Provenance/effect proof on MIR: outputs of bootstrap, jackknife, shuffle and shuffle_two contain only copies of input elements; '
+            'the only mutation of the shuffled copies is slice::swap with identical index operands for the paired arrays (permutation by '
+            'construction); push counts, resample lengths, leave-one-out split points and the index distribution bounds are matched '
+            'symbolically; the sampler\'s RNG call is defined for every state its constructor admits (length-1 data). Equal likelihood of '
+            'positions is not decided.',
+    'design_ref': 'DESIGN.md 4.19, 3 (E-WIRE provenance, effects, E-GRD precondition)',
+    'note': 'Trusted: alea preconditions as quoted in cva/props/c19.py; std summaries of to_vec/split_at/split_first/swap.',
+    'technique': 'provenance (element abstraction) + effect analysis (only swap mutates) + symbolic length/index matching + precondition vs field invariant',
+}
+
 NOT_APPLICABLE = {
     'C09': 'accuracy of the Lanczos/asymptotic/Abramowitz-Stegun approximations over a continuum of arguments is a numerical '
            'quantity; no structural clause is a necessary condition without freezing coefficient tables (a brittle proxy); see DESIGN.md 4.9',
